@@ -15,10 +15,12 @@ THEOREMS = THEOREMS + ['Flowdyn.C07.loop_preserves', 'Flowdyn.C07.run_preserves'
 THEOREMS = THEOREMS + ['Flowdyn.GenK.%s_eq' % k for k in ['eHlle', 'eRoe', 'swHll', 'swRusanov', 'swDt', 'eDt', 'eCons2prim', 'swCons2prim']]
 AUDIT_IMPORTS = AUDIT_IMPORTS + ['Flowdyn.Props.C10b', 'Flowdyn.Props.C10c']
 THEOREMS = THEOREMS + core.theorems_in(['C10b.lean', 'C10c.lean'], 'Flowdyn.C10')
+AUDIT_IMPORTS = AUDIT_IMPORTS + ['Flowdyn.Props.C10d']
+THEOREMS = THEOREMS + core.theorems_in(['C10d.lean'], 'Flowdyn.C10d')
 PARTIAL = {"CFL => wave-speed condition (Euler)": "for Euler HLLE the one-step theorems assume the face condition dt/vol_i * (sR(face i) - sL(face i+1)) <= 1 on the code's own wave speeds; that CFL <= 1/2 on the cell speeds |u|+c implies it is NOT true in general (C10b exhibits cell speeds 7 with a face speed above 8); for shallow water the cell condition CFL <= 1/2 IS sufficient and proved (sw_uniform_fe_positive with the code's swDt); the sweep explores the Euler clause at CFL <= 1/2",
            "HLLC": "positivity of HLLC (Batten's conditions) is not proved; explored by the sweep",
            "stages": "the SSP theorems (rk2_heun, rk3ssp) assume the step condition at every stage state: the code computes dt once per step from the initial state",
-           "boundaries": "pipeline-level theorems hold for periodic meshes (C10b) and for open ends with any boundary kernels that preserve admissibility - slip walls, dirichlet with an admissible state, outsup, outsub p>0, inf (C10c.*_open, *_walls, *_named; wall-face speeds bounded by the cell speed for gamma <= 3); the total-quantity and characteristic inlet kernels as admissibility-preserving conditions are not proved"}
+           "boundaries": "pipeline-level theorems hold for periodic meshes (C10b) and for open ends with any boundary kernels that preserve admissibility - slip walls, dirichlet with an admissible state, outsup, outsub p>0, inf (C10c.*_open, *_walls, *_named; wall-face speeds bounded by the cell speed for gamma <= 3); ALL ten named Euler kernels are proved admissibility-preserving with exact (necessary and sufficient) parameter conditions (C10d: insub, insup, insub_cbc need positive totals, the outlets outsub_qtot / outsub_rh / outsub_nrcbc a positive pressure; eulerBC_padm', eulerBC_padm_iff) and the pipeline theorems are restated for any pair of them (hlle_*_positive_named'); for insub_cbc the statement is about the real-number model: its unclamped discriminant can be negative for an admissible interior state (insubCbc_discr_neg_example), where binary64 returns NaN - the regime in which root and quotient are genuine is insubCbc_regular"}
 LEVEL_NOTE = "admissible cone convexity, HLL star-state lemma, the exact convex-combination form of the first-order update (C10b.hll_update_convex), the model's eHlle/swHll/swRusanov proved to be HLL fluxes with the code's speeds, hence positivity of one forward-Euler step on the periodic pipeline model on any mesh and of the rk2_heun/rk3ssp steps: see PARTIAL for the hypotheses"
 SSP = ['explicit', 'rk2_heun', 'rk3ssp']
 
